@@ -518,7 +518,7 @@ def main():
             break
     if run.want('numbering'):
         enc3 = srcload.Encoded(); nns = load_numbering(enc3); run.add_encoded(enc3)
-        for (P, n, K) in [(2, 2, 1), (3, 2, 2)] + ([(3, 3, 2)] if thorough else []):
+        for (P, n, K) in [(2, 2, 1), (3, 2, 2)] + ([(2, 3, 2), (4, 2, 2)] if thorough else []):
             h, (dofs, spp0, L0) = numbering_harness(nns, P, n, K)
             st = sx.explore(h, timeout_ms=60000, max_paths=20000)
             bound = {'P': P, 'n': n, 'K': K}
